@@ -931,9 +931,9 @@ func c06Backlog(r *gen.Rng, o *out.W, prop string) {
 
 // more retained messages match a SUBSCRIBE than the session queue holds: the broker may give up on the subscriber
 // (it closes it), but it must not acknowledge the subscription and stay silent about part of the retained set
-func c11Overflow(r *gen.Rng, o *out.W) {
+func c11Overflow(r *gen.Rng, o *out.W, prop string) {
 	q := 2 + r.Intn(3)
-	w := newWorld(o, "C11", 1, q, nil)
+	w := newWorld(o, prop, 1, q, nil)
 	p := w.Conn()
 	w.Connect(p, "P", true, nil, 0, "", "")
 	k := q + 3 + r.Intn(3)
@@ -945,6 +945,7 @@ func c11Overflow(r *gen.Rng, o *out.W) {
 	w.Subscribe(s, packet.Subscription{Topic: []string{"r/#", "r/+", "#"}[r.Intn(3)], QOS: packet.QOS(r.Intn(3))})
 	if w.alive(s) {
 		w.AckAll(s)
+		w.Send(s, &packet.Pingreq{})
 	}
 	w.finish()
 	o.Distinct(strings.Join(w.trace, "\n"))
@@ -1382,6 +1383,43 @@ func c16SmallQueue(r *gen.Rng, o *out.W) {
 	o.Sample(fmt.Sprintf("long stream into a queue of %d, window %d, %d lines", q, win, len(w.trace)))
 }
 
+// a peer that pipelines requests and then stops reading (C20): its own answers wait until it reads again, but nobody
+// else's do — a second client connects, subscribes and pings while the first one's writes are stuck.  Monitors only.
+func c20SilentPeer(r *gen.Rng, o *out.W) {
+	nextNoModel = true
+	w := newWorld(o, "C20", 10, 100, nil)
+	w.concurrent = false
+	a := w.Conn()
+	w.Connect(a, "A", true, nil, 0, "", "")
+	w.HoldSends(a)
+	var ps []packet.Generic
+	for i, n := 0, 3+r.Intn(6); i < n; i++ {
+		switch r.Intn(3) {
+		case 0:
+			ps = append(ps, &packet.Subscribe{ID: w.nextPid(a), Subscriptions: []packet.Subscription{{Topic: fmt.Sprintf("s/%d", i), QOS: packet.QOS(r.Intn(3))}}})
+		case 1:
+			ps = append(ps, &packet.Unsubscribe{ID: w.nextPid(a), Topics: []string{fmt.Sprintf("s/%d", i)}})
+		default:
+			w.seq++
+			ps = append(ps, &packet.Publish{ID: w.nextPid(a), Message: packet.Message{Topic: "p", QOS: 1, Payload: []byte(fmt.Sprintf("m%d", w.seq))}})
+		}
+	}
+	w.SendBatch(a, ps)
+	b := w.Conn()
+	w.mustSurvive[b] = true
+	w.Connect(b, "B", true, nil, 0, "", "")
+	if !w.peers[b].connected {
+		w.hit("request-unanswered", fmt.Sprintf("connection %d sent CONNECT while another client's writes were stuck (it had stopped reading) and got no CONNACK", b))
+	}
+	w.Subscribe(b, packet.Subscription{Topic: "q", QOS: 1})
+	w.Send(b, &packet.Pingreq{})
+	w.ReleaseSends(a)
+	w.Send(a, &packet.Pingreq{})
+	w.finish()
+	o.Distinct(fmt.Sprintf("silent peer %d", len(ps)))
+	o.Sample(fmt.Sprintf("a peer pipelines %d requests and stops reading", len(ps)))
+}
+
 // the backend fails right after the client was accepted (C20): Restore returns an error when the CONNACK has already
 // been sent — the connection is closed, and never gets a second CONNACK.  Monitors only (the model has no failing
 // backend calls).
@@ -1672,7 +1710,7 @@ func TestHarness(t *testing.T) {
 		sc("C11 backlog", func(r *gen.Rng, o *out.W) { c06Backlog(r, o, "C11") })
 		if *fShard < 4 {
 			for i := 0; i < 8; i++ {
-				runCase(t, o, "C11 retained overflow", func() { c11Overflow(r, o) })
+				runCase(t, o, "C11 retained overflow", func() { c11Overflow(r, o, "C11") })
 			}
 		}
 		sc("C11 subscribe/publish storm", c11Storm)
@@ -1727,6 +1765,8 @@ func TestHarness(t *testing.T) {
 		sc("C20 request/response", c20Script)
 		sc("C20 long runs", c20Long)
 		if *fShard < 4 {
+			runCase(t, o, "C20 silent peer", func() { c20SilentPeer(r, o) })
+			runCase(t, o, "C20 retained overflow", func() { c11Overflow(r, o, "C20") })
 			runCase(t, o, "C20 restore fails", func() { c20RestoreFails(r, o) })
 		}
 	default:
